@@ -239,6 +239,15 @@ def run(ctx, eng):
            'NeverIndexedHeaderTuple')
     ctx.assume('"accepts every conformant block" is decided through the form '
                'of each guard, not by executing the string operations')
+    cm.include(ctx, eng, 'C17',
+               lambda o: isinstance(o.where, str) and (
+                   o.rule == 'ESC.translate' and
+                   o.where.endswith('._decode_headers') or
+                   o.rule == 'ESC' and ('<-stream._decode_headers' in o.desc
+                                        or '<-utilities.' in o.desc)),
+               'a block that cannot be decoded or normalised is refused as a '
+               'ProtocolError like any other malformed block: an exception of '
+               'another kind out of the header pipeline is not a refusal')
     cm.include(ctx, eng, 'C18',
                lambda o: o.rule == 'TAB.raise-class' and
                isinstance(o.where, str) and o.where.startswith('utilities.'),
